@@ -107,6 +107,7 @@ class _ParseCache:
 
 
 _ALG = {}
+LAST_GEN = {}      # full PSy-layer module text of the last build() (used by the OpenMP execution oracle)
 
 
 def parsed_algorithm(names=None, cache=True):
@@ -267,6 +268,8 @@ def build(dm, annexed, names=None, cache=True, omp=None):
                         "dfname": kern.get_dof_loop_index_symbol().name,
                         "schedule_kinds": [type(c).__name__ for c in sched.children]})
         code_text = str(psy.gen)
+        LAST_GEN["text"] = code_text
+        LAST_GEN["order"] = order
         subs = dict((m.group(1).lower(), m.group(0)) for m in
                     re.finditer(r"SUBROUTINE (\w+)\(.*?END SUBROUTINE \1", code_text, re.S))
         fw = FortranWriter()
